@@ -155,6 +155,25 @@ def install():
                 self._priv_key = self._priv_cls.from_seed_bytes(_urandom(64))
 
         a_pq._PyCAKEM.__init__ = pq_init
+        real_pq_encaps = a_pq._PyCAKEM.encaps
+        names = {mlkem_cls: v for v, mlkem_cls in (
+            ('768', getattr(a_pq.mlkem, 'MLKEM768PublicKey', None)),
+            ('1024', getattr(a_pq.mlkem, 'MLKEM1024PublicKey', None)))}
+
+        def pq_encaps(self, peer_public):
+            variant = names.get(self._pub_cls)
+
+            if _state['drbg'] is None or variant is None:
+                return real_pq_encaps(self, peer_public)
+
+            # same validation as the primitive (raises ValueError), then
+            # the encapsulation of refssh/mlkem.py with seeded randomness;
+            # the peer's real decapsulation checks the result in every run
+            self._pub_cls.from_public_bytes(peer_public)
+            from .refssh import mlkem as ref_mlkem
+            return ref_mlkem.encaps(variant, peer_public, _urandom(32))
+
+        a_pq._PyCAKEM.encaps = pq_encaps
 
     # -- RSA key exchange: transient key and OAEP seed -------------------------
     import hashlib as _hl
